@@ -134,3 +134,11 @@ Theorem C03_component_end_to_end_any_router : forall shortest fit mk_inner bk o 
   layout_component_sx shortest fit mk_inner bk o g = Ok (g', x) -> E2_statement (o_layer_spacing o) g g'.
 Proof. exact Gs2_bands_any. Qed.
 Print Assumptions C03_component_end_to_end_any_router.
+
+(* ---------- regenerated from the source on every run (translator): cycle breaking and layering does not read node identifiers, as its
+   model, which contains none, assumes ---------- *)
+From Coq Require Import String.
+From Autog Require Facts FactsChecks.
+Theorem C03_code_reads_no_identifier : FactsChecks.id_reads_allowed_in "internal/phase1/"%string = true /\ FactsChecks.id_reads_allowed_in "internal/phase2/"%string = true.
+Proof. vm_compute. repeat split; reflexivity. Qed.
+Print Assumptions C03_code_reads_no_identifier.
